@@ -1,4 +1,369 @@
-import GateModel.C16.Model
+import GateModel.C16.Lemmas
+import GateModel.Gen.C16
+/-
+C16 — Server switches keep exactly one live backend and consistent server player lists.
+
+Model: GateModel.C16.Model (`step cfg s a` = one critical section of one goroutine; `Act` = which goroutine moves /
+what the environment does).  All theorems quantify over EVERY interleaving (`Reach` = any schedule, any backend
+behaviour script, any number of concurrent requests).  `Repaired cfg` = the code after the two fixes recorded in
+findings/C16.json (atomic check+publish; no foreign reset); the `_fails` theorems are the kernel-checked witnesses
+for the defective variants and for the remaining known finding (kick path vs. attempt in flight).
+-/
 namespace Gate.C16.Props
-theorem placeholder : True := trivial
+open Gate.C16
+
+/-! ## 1. at most one attempt in flight -/
+
+/-- For every schedule of the repaired code in which the kick path clears the in-flight slot only while no attempt is
+    in flight (hypothesis `G1`; see `one_in_flight_fails_kick` for why it is needed): at most one connection attempt
+    is in flight, and it owns the in-flight slot (so every other request is answered InProgress).
+    PARTIAL: missing hypothesis-free statement = "kicks from the current server never overlap an attempt". -/
+theorem one_in_flight_partial (cfg : Cfg) (hr : Repaired cfg) (s : St) (h : Reach cfg G1 s) :
+    inFlightCount s ≤ 1 ∧ ∀ c, c < s.nconns → attempting (s.conns c) = true → s.inFlight = some c :=
+  ⟨inv1_count s (reach1_inv1 hr h), (reach1_inv1 hr h).a⟩
+
+/-- the same without any hypothesis on the schedule, for all runs that never enter the kick path while the player
+    stays connected (concurrent requests, refusing / kicking / slow backends in login, config and transition) -/
+theorem one_in_flight_kickfree (cfg : Cfg) (hr : Repaired cfg) (s : St) (h : Reach cfg G2 s) :
+    inFlightCount s ≤ 1 :=
+  inv1_count s (reach2_inv2 hr h).i1
+
+/-- a second request that finds the slot taken is told so -/
+theorem second_request_in_progress (s : St) (c d : Nat) (h : s.inFlight = some c) :
+    checkServer s d = some .inprogress := by
+  simp [checkServer, h]
+
+def raceSchedule : List Act :=
+  [.spawn .plain 1 .allow, .spawn .plain 2 .allow,
+   .task 0, .task 0, .task 0, .task 1, .task 1, .task 1,   -- both pass checkServer twice
+   .task 0, .task 1]                                       -- both publish their connection
+
+/-- DEFECT (fixed, findings/C16.json `two-attempts-in-flight`): with `checkServer` and `setInFlightConnection` in
+    separate critical sections two concurrent requests both pass the check — two attempts in flight. -/
+theorem one_in_flight_fails_check_set_race :
+    (run ⟨false, [], false, false⟩ {} raceSchedule).map inFlightCount = some 2 := by decide
+
+/-- the same schedule on the repaired code: the second request is answered InProgress -/
+theorem race_schedule_repaired :
+    (run (repaired false []) {} raceSchedule).map (fun s => (inFlightCount s, (s.tasks 1).res)) =
+      some (1, some .inprogress) := by decide
+
+def foreignResetSchedule : List Act :=
+  [.spawn .plain 1 .allow, .task 0, .task 0, .task 0, .task 0, .task 0,     -- A: … publish, dial (backend stalls)
+   .spawn .plain 2 .allow, .task 1, .task 1,                                 -- B: InProgress, post-processing
+   .spawn .plain 2 .allow, .task 2, .task 2, .task 2, .task 2]               -- C: passes the check, publishes
+
+/-- DEFECT (fixed, findings/C16.json `inflight-not-reported`): `connect()` cleared the in-flight slot after ANY
+    unsuccessful result — request B, merely answered InProgress, frees the slot of the stalled request A, and
+    request C starts a second attempt. -/
+theorem one_in_flight_fails_foreign_reset :
+    (run ⟨false, [], true, true⟩ { scripts := fun _ => [(.accept, true)] } foreignResetSchedule).map
+      (fun s => (inFlightCount s, (s.tasks 1).res)) = some (2, some .inprogress) := by decide
+
+theorem foreign_reset_schedule_repaired :
+    (run (repaired false []) { scripts := fun _ => [(.accept, true)] } (foreignResetSchedule.take 13)).map
+      (fun s => (inFlightCount s, (s.tasks 2).res)) = some (1, some .inprogress) := by decide
+
+def kickSchedule : List Act :=
+  [.spawn .plain 1 .allow, .task 0, .task 0, .task 0, .task 0, .task 0,     -- join server 1 …
+   .back 0, .back 0, .back 0, .back 0, .back 0, .task 0, .task 0, .task 0, .task 0,
+   .spawn .plain 2 .allow, .task 1, .task 1, .task 1, .task 1, .task 1,     -- switch to 2 in flight (backend stalls)
+   .kick 0,                                                                  -- server 1 kicks the player
+   .task 2, .task 2, .task 2, .task 2, .task 2,                              -- kick path: … setInFlightConnection(nil) …
+   .task 2, .task 2, .task 2, .task 2]                                       -- redirect to 3: check passes, publish
+
+/-- KNOWN FINDING (findings/C16.json `kick-redirect-while-in-flight`): on the repaired code, a kick from the current
+    server while a switch is in flight runs `handleKickEvent`, which clears the in-flight slot unconditionally and
+    redirects — a second attempt in flight.  This is why `one_in_flight_partial` needs `G1`. -/
+theorem one_in_flight_fails_kick :
+    (run (repaired false [1, 2, 3]) { scripts := fun n => if n = 2 then [(.accept, true)] else [] } kickSchedule).map
+      inFlightCount = some 2 := by decide
+
+/-! ## 2. after a successful switch -/
+
+/-- For every schedule of the repaired code that stays out of the kick path while the player is connected (`G2`):
+    a request that returned Success owns a connection to its destination that reached play; as long as that
+    connection lives it is the current server — unless a LATER switch has already taken over and is about to close
+    it —, it is the only backend connection in play (the previous one is closed), and the player is in the player
+    list of exactly that server.
+    PARTIAL: the kick / fallback path is excluded (hypothesis `G2`). -/
+theorem after_success_partial (cfg : Cfg) (hr : Repaired cfg) (s : St) (h : Reach cfg G2 s)
+    (i : Nat) (hi : i < s.ntasks) (hres : (s.tasks i).res = some .ok) :
+    ∃ c, (s.tasks i).conn = some c ∧ c < s.nconns ∧ (s.conns c).server = (s.tasks i).dest ∧
+      ((s.conns c).phase = .play ∨ (s.conns c).phase = .closed) ∧
+      ((s.conns c).phase = .play →
+        (s.current = some c ∨
+          ∃ d, d < s.nconns ∧ (s.conns d).jold = some c ∧ ((s.conns d).h = .j1b ∨ (s.conns d).h = .sw3)) ∧
+        (∀ c', c' < s.nconns → (s.conns c').phase = .play → c' = c) ∧
+        (∀ sv, sv ∈ s.players ↔ sv = (s.conns c).server)) := by
+  have hI := reach2_inv2 hr h
+  obtain ⟨c, hc1, hc2⟩ := hI.rs i hi hres
+  have hlt := hI.i1.tc i hi c hc1
+  refine ⟨c, hc1, hlt, hI.td i hi c hc1, (hI.i1.jp c hlt).2.2.2.2.2.2.2.2 hc2, ?_⟩
+  intro hp
+  refine ⟨?_, fun c' hc' hp' => hI.c2.b1 c' c hc' hlt hp' hp, ?_⟩
+  · rcases hI.c2.b4 c hlt hp with h1 | h1 | h1
+    · exact Or.inl h1
+    · have := ((hI.c2.jt c hlt).2.1 h1).2.1; rw [this] at hc2; simp at hc2
+    · exact Or.inr h1
+  · intro sv
+    rw [hI.c2.b2 sv]
+    constructor
+    · rintro ⟨c', hc', hp', hs⟩
+      rw [hI.c2.b1 c' c hc' hlt hp' hp] at hs; exact hs.symm
+    · intro hs; exact ⟨c, hlt, hp, hs.symm⟩
+
+/-- no switch-over section of handleJoinGame / doSwitch is half done -/
+def NoSection (s : St) : Prop :=
+  ∀ d, d < s.nconns → (s.conns d).h ≠ .j1b ∧ (s.conns d).h ≠ .sw3 ∧ (s.conns d).h ≠ .j4
+
+/-- Exactly one live backend and consistent lists, for every reachable state (same hypothesis): the player's lists
+    are exactly the servers of the backend connections in play, there is at most one such connection, the current
+    server is one; and whenever no switch-over section is half done, the connection in play IS the current server —
+    the player appears in the list of exactly its current server. -/
+theorem lists_exact_partial (cfg : Cfg) (hr : Repaired cfg) (s : St) (h : Reach cfg G2 s) :
+    (∀ sv, sv ∈ s.players ↔ ∃ c, c < s.nconns ∧ (s.conns c).phase = .play ∧ (s.conns c).server = sv) ∧
+    (∀ c c', c < s.nconns → c' < s.nconns → (s.conns c).phase = .play → (s.conns c').phase = .play → c = c') ∧
+    (∀ c, s.current = some c → c < s.nconns ∧ (s.conns c).phase = .play) ∧
+    (NoSection s → ∀ sv, sv ∈ s.players ↔ ∃ c, s.current = some c ∧ (s.conns c).server = sv) := by
+  have hI := reach2_inv2 hr h
+  refine ⟨hI.c2.b2, hI.c2.b1, fun c hc => ⟨(hI.c2.b3 c hc).1, (hI.c2.b3 c hc).2.1⟩, ?_⟩
+  intro hns sv
+  rw [hI.c2.b2 sv]
+  constructor
+  · rintro ⟨c, hc, hp, hs⟩
+    rcases hI.c2.b4 c hc hp with h1 | h1 | ⟨d, hd, _, hh⟩
+    · exact ⟨c, h1, hs⟩
+    · exact absurd h1 (hns c hc).2.2
+    · rcases hh with hh | hh
+      · exact absurd hh (hns d hd).1
+      · exact absurd hh (hns d hd).2.1
+  · rintro ⟨c, hc, hs⟩
+    obtain ⟨h1, h2, _⟩ := hI.c2.b3 c hc
+    exact ⟨c, h1, h2, hs⟩
+
+/-! ## 3. failed attempts are safe -/
+
+/-- the steps that can change the current server or a player list: the switch-over sections (they run only after
+    the backend's login SUCCESS: doSwitch, and after its JoinGame), the kick path, and the environment's kick / drop /
+    quit -/
+def switchAct (s : St) : Act → Bool
+  | .back c =>
+    let C := s.conns c
+    swA C.h || (C.h == .idle && C.phase == .transition && C.beh == .accept)
+  | .task i => isKickPc (s.tasks i).pc || ((s.tasks i).pc == .cancel && (s.tasks i).mode == .redirect)
+  | .spawn _ _ _ => false
+  | .release _ => false
+  | .kick _ => true
+  | .drop _ => true
+  | .quit => true
+
+/-- Every other step — a refused dial, a Disconnect / EOF / EncryptionRequest during login, a Disconnect or EOF
+    before JoinGame, a kick during configuration, all bookkeeping of the requests (check, publish, wait, deferred
+    reset, post-processing), for ANY cfg variant — leaves the current server, the player lists and the client
+    connection untouched: a failed attempt leaves the player where it was. -/
+theorem failed_safe (cfg : Cfg) (s s' : St) (a : Act) (hJP : JP s) (h : step cfg s a = some s')
+    (hns : switchAct s a = false) :
+    s'.current = s.current ∧ s'.players = s.players ∧ s'.active = s.active := by
+  cases a with
+  | task i =>
+    simp only [step] at h
+    simp only [switchAct, Bool.or_eq_false_iff] at hns
+    unfold stepTask at h
+    split at h
+    · simp at h
+    · simp only [] at h
+      cases hpc : (s.tasks i).pc <;> simp only [hpc] at h hns
+      all_goals (try (simp [isKickPc] at hns; done))
+      all_goals (repeat' (split at h))
+      all_goals (try (simp at h; done))
+      all_goals (try (injection h with h; subst h))
+      all_goals first
+        | exact ⟨rfl, rfl, rfl⟩
+        | (simp_all; done)
+        | (rename_i c1 _ hph
+           have hnp : (s.conns c1).phase ≠ .play := by
+             simp at hph; rcases hph with h | h <;> simp [h]
+           have hpl := closeConn_players_not_play s c1 hnp
+           exact ⟨by simp, by simpa using hpl, by simp⟩)
+  | back c0 =>
+    simp only [step] at h
+    simp only [switchAct, Bool.or_eq_false_iff] at hns
+    unfold stepBack at h
+    split at h
+    · simp at h
+    · rename_i hlt
+      have hJ0 := hJP c0 (by omega)
+      simp only [] at h
+      cases hh : (s.conns c0).h <;> simp only [hh] at h hns
+      all_goals (try (simp [swA] at hns; done))
+      all_goals (repeat' (split at h))
+      all_goals (try (simp at h; done))
+      all_goals (try (injection h with h; subst h))
+      all_goals first
+        | exact ⟨rfl, rfl, rfl⟩
+        | (simp_all; done)
+        | (have hnp : (s.conns c0).phase ≠ .play := by
+             unfold jpOK at hJ0
+             first
+               | (simp_all; done)
+               | (rcases hJ0.2.2.2.1 hh with h | h | h <;> simp [h])
+           exact ⟨by simp, by simp [closeConn_players_not_play s c0 hnp], by simp⟩)
+  | spawn m d ev => simp [step] at h; subst h; exact ⟨rfl, rfl, rfl⟩
+  | release c0 => simp only [step] at h; split at h <;> simp at h; subst h; exact ⟨rfl, rfl, rfl⟩
+  | kick c0 => simp [switchAct] at hns
+  | drop c0 => simp [switchAct] at hns
+  | quit => simp [switchAct] at hns
+
+/-- … and when the built-in handling recovers (kick path, kicked from / left without a current server), the server it
+    redirects to is the next fallback: a server of the `try` list at or after `tryIndex` that is neither the server
+    the player was kicked from, nor its current server, nor the server of the attempt in flight. -/
+theorem failed_fallback_choice (cfg : Cfg) (s : St) (rs idx d : Nat) (h : nextToTry cfg s rs = some (idx, d)) :
+    d ∈ cfg.try_ ∧ d ≠ rs ∧
+    (∀ c, s.current = some c → (s.conns c).server ≠ d) ∧ (∀ c, s.inFlight = some c → (s.conns c).server ≠ d) := by
+  unfold nextToTry at h
+  obtain ⟨h1, h2⟩ := scanTry_sound _ _ _ _ _ h
+  simp only [Bool.or_eq_false_iff] at h2
+  refine ⟨List.mem_of_mem_drop h1, by simpa using h2.2, ?_, ?_⟩
+  · intro c hc; have := h2.1.1; rw [hc] at this; simpa using this
+  · intro c hc; have := h2.1.2; rw [hc] at this; simpa using this
+
+/-- the kick path installs exactly that choice as the redirect target -/
+theorem failed_fallback_redirects (cfg : Cfg) (s s' : St) (i rs : Nat) (hi : i < s.ntasks)
+    (hpc : (s.tasks i).pc = .next rs) (h : step cfg s (.task i) = some s') :
+    (s'.tasks i).pc = .kickReset true ((nextToTry cfg s rs).map (·.2)) := by
+  simp only [step] at h
+  unfold stepTask at h
+  rw [if_neg (by omega)] at h
+  simp only [hpc] at h
+  split at h <;> (injection h with h; subst h) <;> simp_all [setPc_tasks, upd_apply]
+
+/-! ## 4. requests to the current server / while one is in flight are reported without side effects -/
+
+/-- what `checkServer` answers -/
+theorem check_answers (s : St) (d : Nat) :
+    (checkServer s d = some .inprogress ↔
+      s.inFlight ≠ none ∨ ∃ c, s.current = some c ∧ (s.conns c).completedJoin = false) ∧
+    (checkServer s d = some .already ↔
+      s.inFlight = none ∧ ∃ c, s.current = some c ∧ (s.conns c).completedJoin = true ∧ (s.conns c).server = d) := by
+  unfold checkServer
+  cases hf : s.inFlight <;> cases hc : s.current <;> simp
+  rename_i c
+  cases hj : (s.conns c).completedJoin <;> simp
+
+/-- shared state = everything but the tasks' own records -/
+def sharedEq (s s' : St) : Prop :=
+  s'.nconns = s.nconns ∧ s'.conns = s.conns ∧ s'.inFlight = s.inFlight ∧ s'.current = s.current ∧
+  s'.players = s.players ∧ s'.active = s.active ∧ s'.clientPlay = s.clientPlay ∧ s'.tryIndex = s.tryIndex ∧
+  s'.scripts = s.scripts
+
+/-- On the repaired code a request answered AlreadyConnected or InProgress (at either check, or at the atomic
+    check-and-publish) goes through `check → post → cancel → done` and NONE of these steps touches shared state:
+    no connection is created, the in-flight slot, the current server and the lists stay as they are. -/
+theorem noop_results (cfg : Cfg) (hr : Repaired cfg) (s s' : St) (i : Nat) (hi : i < s.ntasks)
+    (h : step cfg s (.task i) = some s') :
+    (∀ r, ((s.tasks i).pc = .check1 ∨ (s.tasks i).pc = .check2 ∨ (s.tasks i).pc = .set) →
+        checkServer s (s.tasks i).dest = some r →
+        sharedEq s s' ∧ (s'.tasks i).res = some r ∧ (s'.tasks i).pc = .post ∧ (s'.tasks i).conn = (s.tasks i).conn) ∧
+    ((s.tasks i).pc = .post → sharedEq s s' ∧ (s'.tasks i).pc = .cancel ∧ (s'.tasks i).res = (s.tasks i).res) ∧
+    ((s.tasks i).pc = .cancel → (s.tasks i).conn = none → (s.tasks i).mode = .plain →
+        sharedEq s s' ∧ (s'.tasks i).pc = .done ∧ (s'.tasks i).res = (s.tasks i).res) := by
+  obtain ⟨hat, hfr⟩ := hr
+  simp only [step] at h
+  unfold stepTask at h
+  rw [if_neg (by omega)] at h
+  simp only [] at h
+  refine ⟨?_, ?_, ?_⟩
+  · intro r hpc hck
+    rcases hpc with hpc | hpc | hpc <;> simp only [hpc, hck, hat, if_true] at h <;>
+      (injection h with h; subst h) <;>
+      exact ⟨⟨rfl, rfl, rfl, rfl, rfl, rfl, rfl, rfl, rfl⟩, by simp [finish_tasks], by simp [finish_tasks],
+        by simp [finish_tasks]⟩
+  · intro hpc
+    simp only [hpc, hfr] at h
+    injection h with h; subst h
+    exact ⟨⟨rfl, rfl, rfl, rfl, rfl, rfl, rfl, rfl, rfl⟩, by simp [setPc_tasks], by simp [setPc_tasks]⟩
+  · intro hpc hconn hmode
+    simp only [hpc, hconn, hmode] at h
+    injection h with h; subst h
+    exact ⟨⟨rfl, rfl, rfl, rfl, rfl, rfl, rfl, rfl, rfl⟩, by simp [setPc_tasks], by simp [setPc_tasks]⟩
+
+/-- DEFECT (fixed): in the original code the post-processing of such a no-op request cleared the in-flight slot
+    that belongs to ANOTHER request. -/
+theorem noop_results_fails_foreign_reset :
+    (run ⟨false, [], true, true⟩ { scripts := fun _ => [(.accept, true)] } (foreignResetSchedule.take 9)).map
+      (fun s => (s.inFlight, (s.tasks 1).res, (s.tasks 0).pc)) = some (none, some .inprogress, .wait) := by decide
+
+/-! ## 5. tie to the source (regenerated facts) -/
+open Gate.Gen.C16 in
+/-- which variant the source is: the second check publishes the connection in the same critical section
+    (`checkServerAndSetInFlight`: Lock … defer Unlock, `checkServer0`), `internalConnect` no longer calls
+    `setInFlightConnection`, and `connect()` no longer calls `resetInFlightConnection` -/
+theorem src_is_repaired :
+    ("c.checkServerAndSetInFlight" ∈ internalConnectCalls ∧ "c.player.setInFlightConnection" ∉ internalConnectCalls ∧
+     checkAndSetCalls = ["p.mu.Lock", "defer:p.mu.Unlock", "p.checkServer0", "return"]) ∧
+    "c.player.resetInFlightConnection" ∉ connectCalls := by decide
+
+open Gate.Gen.C16 in
+/-- the order of the request's critical sections in `internalConnect`: check, event, check, (type check), new
+    connection, check-and-publish, deferred reset, connect -/
+theorem src_internalConnect_order :
+    internalConnectCalls.filter (fun c => c ∈ ["c.checkServer", "c.event().Fire", "newServerConnection",
+        "c.checkServerAndSetInFlight", "defer:c.resetIfInFlightIs", "conn.connect"]) =
+      ["c.checkServer", "c.event().Fire", "c.checkServer", "newServerConnection", "c.checkServerAndSetInFlight",
+       "defer:c.resetIfInFlightIs", "conn.connect"] := by decide
+
+open Gate.Gen.C16 in
+/-- lock regions and section order of the other `player.mu` users the model splits into steps -/
+theorem src_sections :
+    checkServerCalls.take 3 = ["p.mu.RLock", "defer:p.mu.RUnlock", "p.checkServer0"] ∧
+    resetIfInFlightIsCalls = ["c.player.mu.Lock", "defer:c.player.mu.Unlock"] ∧
+    setConnectedServerCalls = ["p.mu.Lock", "p.mu.Unlock"] ∧
+    -- handleJoinGame: lock section, then existingConn.disconnect, …, SetActiveSessionHandler, setConnectedServer, result
+    handleJoinGameCalls.filter (fun c => c ∈ ["b.serverConn.player.mu.Lock", "existingConn.disconnect",
+        "playHandler.handleBackendJoinGame", "smc.SetActiveSessionHandler", "b.serverConn.player.setConnectedServer"]) =
+      ["b.serverConn.player.mu.Lock", "existingConn.disconnect", "playHandler.handleBackendJoinGame",
+       "smc.SetActiveSessionHandler", "b.serverConn.player.setConnectedServer"] ∧
+    handleJoinGameCalls.getLast? = some "b.requestCtx.result" ∧
+    -- doSwitch: read, setConnectedServer(nil), disconnect
+    doSwitchCalls.filter (fun c => c ∈ ["c.player.connectedServer", "c.player.setConnectedServer",
+        "existingConn.disconnect", "c.player.switchToConfigState"]) =
+      ["c.player.connectedServer", "c.player.setConnectedServer", "existingConn.disconnect",
+       "c.player.switchToConfigState"] ∧
+    -- handleKickEvent: fire, unconditional setInFlightConnection(nil), lock section, …
+    handleKickEventCalls.take 5 = ["p.proxy.Event", "p.proxy.Event().Fire", "p.setInFlightConnection", "p.mu.Lock",
+      "p.mu.Unlock"] ∧
+    playActivatedCalls.head? = some "b.serverConn.server.players.add" ∧
+    playDisconnectedCalls.head? = some "b.serverConn.server.players.remove" ∧
+    loginHandleDisconnectCalls.drop 3 = ["b.requestCtx.result", "b.serverConn.disconnect"] ∧
+    transitionHandleDisconnectCalls.drop 8 = ["b.requestCtx.result", "b.serverConn.disconnect"] := by decide
+
+/-! ## non-vacuity -/
+
+def switchSchedule : List Act :=
+  [.spawn .plain 1 .allow, .task 0, .task 0, .task 0, .task 0, .task 0,
+   .back 0, .back 0, .back 0, .back 0, .back 0, .task 0, .task 0, .task 0, .task 0,      -- on server 1
+   .spawn .plain 2 .allow, .spawn .plain 3 .allow,                                        -- two concurrent requests
+   .task 1, .task 2, .task 1, .task 2, .task 1, .task 2, .task 1, .task 2, .task 1,
+   .back 1, .back 1, .back 1, .back 1, .back 1, .back 1, .task 1, .task 1, .task 1, .task 1,
+   .task 2, .task 2]
+
+/-- the hypotheses of the theorems above are satisfiable by a run with a real switch and a concurrent request:
+    the schedule is accepted by `run2` (hypothesis G2 checked at every step), ends with the player on server 2
+    (second connection), list = [2], request 1 Success, request 2 InProgress -/
+example : (run2 (repaired false [1, 2, 3]) {} switchSchedule).map
+    (fun s => (s.current, s.players, (s.tasks 1).res, (s.tasks 2).res, (s.conns 0).phase, inFlightCount s)) =
+    some (some 1, [2], some .ok, some .inprogress, .closed, 0) := by rfl
+
+example : ∃ s, Reach (repaired false [1, 2, 3]) G2 s ∧ (s.tasks 1).res = some .ok := by
+  cases hrun : run2 (repaired false [1, 2, 3]) {} switchSchedule with
+  | none => exact absurd hrun (by decide)
+  | some s =>
+    refine ⟨s, run2_reach (Reach.init ⟨rfl, rfl, rfl, rfl, rfl, rfl⟩) _ _ hrun, ?_⟩
+    have : (run2 (repaired false [1, 2, 3]) {} switchSchedule).map (fun s => (s.tasks 1).res) = some (some .ok) := by
+      decide
+    rw [hrun] at this; simpa using this
+
+example : Repaired (repaired true [1]) := ⟨rfl, rfl⟩
+
 end Gate.C16.Props
